@@ -544,6 +544,19 @@ def check_sock_safety(ctx):
     for b in gen_deser(ctx, n // 2):
         cases.append("deser " + hx(b))
         py.append(None)
+    # a decoded address is handed on to sock_addr_prettyprint: every family with every name length
+    # around sizeof(sockaddr_in) = 16 and sizeof(sockaddr_in6) = 28 and well beyond (the printer copies
+    # the name into a fixed-size object on its stack)
+    r = ctx.rng
+    for _ in range(n // 2):
+        fam, typ, nm = rand_sa(ctx)
+        cases.append("pp %d %d %s" % (fam, typ, hx(nm)))
+        py.append(None)
+    for fam in (AF_INET, AF_INET6):
+        for ln in [0, 1, 2, 8, 15, 16, 17, 18, 24, 27, 28, 29, 30, 32, 48, 64, 110, 128, 300]:
+            cases.append("pp %d %d %s" % (fam, SOCK_STREAM, hx(bytes(r.randrange(256) for _ in range(ln)))))
+            py.append(None)
+            ctx.count("sock.pp.namelen_sweep")
     run_all(ctx, "sock-safety", cases, None, py,
             "sock_resolve / sock_addr_ensure_port on bracketed and Unix-path strings with stray brackets, colons, bad "
             "ports, paths of 107..1000 bytes (exact strlen+1 allocations); sock_addr_deserialize on buffers with every "
